@@ -128,6 +128,19 @@ CLAIMS = {
              "builders. Not decided: bytes inside names, and session-level behaviour.",
         technique="symbolic path enumeration with bounded loop unrolling, token-grammar parsing, linear path constraints",
         design="5 C10"),
+    "C14": dict(
+        text="Clause-level structural decision (typestate over the two per-session query holders and the incoming query, per event "
+             "handler): the sender empties the query it answers on every path and the cache helpers do so on their answered paths; "
+             "every call of the sender on a holder is dominated by 'holder occupied' (id != 0, or a whole-structure copy of the "
+             "incoming query), with facts invalidated through the callees' mod-sets, so a flag computed before a call that may "
+             "consume the holder does not count; a holder is overwritten only when known empty; the incoming query is answered "
+             "directly at most once and never also stored; id-0 queries are dropped before any effect; the duplicate slot is "
+             "written only in the pending-duplicate branches, the holder is only ever replaced as a whole, and the second "
+             "transmission goes out under id2 != 0 with the duplicate's id and address; a session has exactly two holders. Not "
+             "decided: cross-event histories beyond the 'empty <=> id == 0' representation these rules enforce.",
+        technique="path-sensitive must-fact dataflow with callee post-conditions, mod-set based invalidation and focus-preserving "
+                  "disjunct reduction; CFG reachability between answer events",
+        design="5 C14"),
 }
 
 NA = {
